@@ -12,7 +12,7 @@
     [inc_end m g n] / [hh_end g n] = n lies on an included / on an H-H bond, [charge_changed a] = the two charges in typesGH differ.
     Theorems 13-17: the RadiusExpand helpers. *)
 From Coq Require Import List NArith ZArith Bool.
-From SK Require Import lib.LGraph lib.C01_GraphLemmas model.C01_Model model.C02_Model proof.C02_Proof proof.C02_Opts proof.C02_OptsEquiv proof.C02_Ctx proof.C02_Lre proof.C02_LreTrace proof.C02_Sides.
+From SK Require Import lib.LGraph lib.C01_GraphLemmas model.C01_Model model.C02_Model proof.C02_Proof proof.C02_Opts proof.C02_OptsEquiv proof.C02_Ctx proof.C02_Lre proof.C02_LreTrace proof.C02_Sides proof.C02_CtxEquiv.
 Import ListNotations.
 Local Open Scope Z_scope.
 
@@ -299,3 +299,9 @@ Theorem C02_extract_subgraph : forall (g : its) (ids : list N), wf g ->
   (forall u v e, adj (extract_subgraph g ids) u v = Some e <-> adj g u v = Some e /\ In u ids /\ In v ids).
 Proof. exact extract_subgraph_spec. Qed.
 Print Assumptions C02_extract_subgraph.
+
+(** 24. the radius-k contexts commute with every injective renumbering (theorem 4 extended from the centre to the contexts) *)
+Theorem C02_ctx_equivariant : forall f : N -> N, (forall a b, f a = f b -> a = b) -> forall (g : its) (k : nat),
+  extract_k (relabel f g) k = relabel f (extract_k g k).
+Proof. exact ctx_equivariant. Qed.
+Print Assumptions C02_ctx_equivariant.
